@@ -301,7 +301,7 @@ def run(ctx, C07):
         if res is None:
             continue
         world, specs = res
-        chosen = rng.sample(neutral, 2 if quick else 3) + rng.sample(plans, 3 if quick else 4)
+        chosen = rng.sample(neutral, 2 if quick else 3) + rng.sample(plans, 2 if quick else 4)
         for steps in chosen:
             if ctx.out_of_time():
                 break
